@@ -38,6 +38,9 @@ def run(repo: Repo, tier: str, res: CheckResult, seed: int = 0) -> None:
     mode_trail_presence(repo, res)
     facade_wrapper(repo, res)
     input_value_binding(repo, res)
+    from .c11 import caches_not_carried_over
+    caches_not_carried_over(repo, res, prop="C05", rule="MODE.loaders-shared-across-debug-trail-modes",
+                            consequence="a retort derived with replace(debug_trail=...) keeps raising in the mode of the original (trails under DISABLE, a single untrailed error under ALL)")
     from .. import genprog
     genprog.c05_checks(repo, tier, res, seed)
     res.assumptions = list(ASSUMPTIONS)
@@ -285,6 +288,10 @@ def _epilogue_rule(m: ModuleInfo, fn, qual: str, res: CheckResult) -> None:
 
 
 # ------------------------------------------------------------------------------------------ (4)
+def _trail_calls_in(node: ast.AST) -> bool:
+    return any(isinstance(c, ast.Call) and norm(c.func) in ("append_trail", "extend_trail") for c in ast.walk(node))
+
+
 def mode_trail_presence(repo: Repo, res: CheckResult) -> None:
     n = 0
     for meth in ("provide_loader", "provide_dumper"):
@@ -307,6 +314,19 @@ def mode_trail_presence(repo: Repo, res: CheckResult) -> None:
                     if dt == "DISABLE" and has_trail:
                         res.add(Finding("C05", "MODE.trail-in-disable", fv.module.rel, f"{ci.name}:{meth}:DISABLE",
                                         fv.name, "a closure handed out for DebugTrail.DISABLE annotates trails", fv.fn.lineno))
+                    if dt == "ALL" and has_trail:
+                        # a closure that walks over SEVERAL leaves (a loop whose handlers annotate and re-raise) reports only the
+                        # first invalid one; under ALL every leaf is visited and the errors are collected
+                        for f in fns:
+                            loops = [l for l in walk_no_nested(f, include_root=False) if isinstance(l, (ast.For, ast.While))]
+                            stops = [h for l in loops for h in ast.walk(l) if isinstance(h, ast.ExceptHandler)
+                                     and any(isinstance(x, ast.Raise) and x.exc is None for x in ast.walk(h)) and _trail_calls_in(h)]
+                            if stops and not _error_lists(f):
+                                res.add(Finding("C05", "MODE.all-stops-at-first-leaf", fv.module.rel, f"{ci.name}:{meth}:ALL", f.name,
+                                                f"the closure `{f.name}` handed out for DebugTrail.ALL annotates the error of an item and "
+                                                "re-raises it from inside the loop over the items, and collects nothing: the other "
+                                                "invalid leaves of the container are never reported (ALL promises every leaf, in one "
+                                                "aggregate)", stops[0].lineno))
                     if dt != "DISABLE" and not has_trail and ci.name != "UnionProvider":
                         res.add(Finding("C05", "MODE.no-trail-in-debug", fv.module.rel, f"{ci.name}:{meth}:{dt}",
                                         fv.name, f"the closure handed out for DebugTrail.{dt} does not annotate trails: errors "
